@@ -205,13 +205,43 @@ func analyse(res *core.Result, pkg *packages.Package, fd *ast.FuncDecl) {
 			} else {
 				// inside a closure (restore func): treated as deferred to the closure's caller
 				inLit := false
+				var lit *ast.FuncLit
 				for p := par[c]; p != nil; p = par[p] {
-					if _, ok := p.(*ast.FuncLit); ok {
+					if l, ok := p.(*ast.FuncLit); ok {
 						inLit = true
+						if lit == nil {
+							lit = l
+						}
 					}
 				}
 				if inLit {
 					deferredPuts = append(deferredPuts, c)
+					// inside the closure itself the typestate still holds:
+					// no use of the workspace after its put
+					res.Obligations++
+					res.Count("closure_put_sites", 1)
+					gl := cfgx.New(lit.Body, info)
+					if loc, ok := gl.Where[c]; ok {
+						seenL := map[int32]bool{}
+						hit := false
+						var walkL func(b *cfg.Block, from int)
+						walkL = func(b *cfg.Block, from int) {
+							for i := from; i < len(b.Nodes) && !hit; i++ {
+								if mentions(b.Nodes[i], tok) {
+									report(res, "POOL.uaf", name, tok, b.Nodes[i], c)
+									hit = true
+									return
+								}
+							}
+							for _, sb := range b.Succs {
+								if !seenL[sb.Index] && !hit {
+									seenL[sb.Index] = true
+									walkL(sb, 0)
+								}
+							}
+						}
+						walkL(gl.Blocks[loc.Block], loc.Index+1)
+					}
 				} else {
 					puts = append(puts, c)
 				}
